@@ -53,7 +53,11 @@ def run(ctx):
     import wiring
     ctx.rule('R12.10', 'the observation a caller builds carries its feature, quality, box and custom id unchanged '
                        '(constructor stores its parameters as given; the trackers apply the documented defaults)')
-    ctx.floor('R12.10', wiring.identity_ctor(ctx, 'R12.10', 'trackers::visual_sort::VisualSortObservation::new'), 4)
+    n = wiring.identity_ctor(ctx, 'R12.10', 'trackers::visual_sort::VisualSortObservation::new')
+    from props import C13
+    n += wiring.identity_from_self(ctx, 'R12.10', 'trackers::visual_sort::metric::builder::VisualMetricBuilder::build',
+                                   'VisualMetricOptions', C13.GALLERY_OPTS)
+    ctx.floor('R12.10', n, 8)
     # the cosine / euclidean distances the appearance votes are counted on (shared with C16)
     from props import C16
     ctx.rule('R12.11', 'the visual distances votes are counted on: euclidean / cosine over the common prefix (rules of C16)')
@@ -168,6 +172,25 @@ def cascade(ctx, R):
                 ins = cb.find_calls('std::collections::HashSet::insert')
                 excl_insert = bool(ins) and ebc.arg(ins[0], 1).has_field('winner_track')
                 label_cb = cb
+                # the track taken out of the positional stage IS the track reported as won: same expression
+                if ins and excl_insert:
+                    rep = []
+                    for i_ in sorted(cb.live_blocks()):
+                        for si_, s_ in enumerate(cb.blocks[i_]['st']):
+                            rv_ = s_.get('rv') if s_['k'] == 'assign' else None
+                            if rv_ and rv_['k'] == 'agg' and rv_.get('ak') == 'tuple' and len(rv_['ops']) == 2:
+                                t2 = rv_['ops'][1]
+                                if t2.get('k') in ('copy', 'move') and 'VotingType' in cb.locals[t2['pl']['l']] and \
+                                        'Vec' not in cb.locals[t2['pl']['l']]:
+                                    rep.append(ebc.operand(rv_['ops'][0], at=(i_, si_)))
+                    taken = ebc.arg(ins[0], 1)
+                    if rep:
+                        n += 1
+                        same = all(repr(r_.strip()) == repr(taken.strip()) for r_ in rep)
+                        ctx.check(same, R, cb, 'excluded-track-is-the-reported-winner', repr(taken)[:80],
+                                  'the appearance stage reports %r as the track won by the claimant but takes %r out of the '
+                                  'positional stage: the reported track stays available there and can be awarded a second '
+                                  'time' % (rep[0], taken), ins[0].ln)
             else:
                 n += 1
                 positional_label = labels == {'Positional'}
